@@ -37,6 +37,31 @@ Theorem C07_end_to_end : forall (P : prims) (fx : fixes),
 Proof. exact end_to_end. Qed.
 Print Assumptions C07_end_to_end.
 
+(* The server's writer.  MessageWriter::write chunks with Chunker::encode(last_sent + 1, request id,
+   .., the send buffer size negotiated for the connection in HEL / ACK) -- [writer_chunks true] --
+   so every clause above holds of what the writer emits; stated explicitly: the chunks are numbered
+   from last_sent + 1, pass the receiver unchanged, reassemble to the response, and EVERY SECURED
+   CHUNK THE WRITER EMITS IS AT MOST THE NEGOTIATED SIZE. *)
+Theorem C07_writer : forall (P : prims) (fx : fixes),
+  fx_pad_sign fx = true -> fx_budget fx = true -> fx_opn_budget fx = true ->
+  forall (S : sender) (R : receiver), link P S R ->
+  forall (t : mtype) (req last negotiated : Z) (data : bytes),
+  0 <= req < U32 -> data <> [] -> len data <= 1073741824 -> 0 <= last -> last + 1 + len data < U32 ->
+  src_min_chunk <= negotiated ->
+  exists parts,
+    let cs := mk_chunks S t (last + 1) req parts in
+    writer_chunks true fx S t last req negotiated data = Ok cs /\ parts <> [] /\ concat parts = data /\
+    (forall i b, nth_error parts i = Some b ->
+       let plain := new_chunk S t (if Nat.eqb (Datatypes.S i) (length parts) then 1 else 0) (last + 1 + Z.of_nat i) req b in
+       nth_error cs i = Some plain /\
+       exists sec, apply_security P fx S t plain = Ok sec /\
+                   recv P fx R sec = (Ok plain, r_policy R) /\
+                   len sec <= negotiated) /\
+    validate_chunks P fx R (last + 1) cs = Ok (last + 1 + Z.of_nat (length parts) - 1) /\
+    decode P R cs = Ok data.
+Proof. exact writer_ok. Qed.
+Print Assumptions C07_writer.
+
 (* the repaired code is an instance: [current] has the three fixes *)
 Theorem C07_current_fixed : fx_pad_sign current = true /\ fx_budget current = true /\ fx_opn_budget current = true.
 Proof. repeat split; reflexivity. Qed.
@@ -134,6 +159,13 @@ Print Assumptions C07_legacy_refuted_budget.
 Theorem C07_legacy_refuted_opn_budget : exists c, valid c /\ oracle c (Legacy.run_opn_budget c) = false.
 Proof. exists w_opn_budget. exact legacy_opn_budget_refuted. Qed.
 Print Assumptions C07_legacy_refuted_opn_budget.
+
+(* before "server responses were never chunked": the writer passed max_chunk_size 0 and a 9000 byte
+   response left as one chunk of more than the negotiated 8196 bytes; the repaired writer chunks it *)
+Theorem C07_legacy_refuted_writer :
+  exists c, valid c /\ oracle c (Legacy.run_writer c) = false /\ oracle c (run c) = true.
+Proof. exists w_writer. exact legacy_writer_refuted. Qed.
+Print Assumptions C07_legacy_refuted_writer.
 
 (* the hypotheses are satisfiable by concrete non-trivial cases *)
 Example C07_valid_example : valid w_padding /\ valid w_budget /\ valid w_opn_budget.
